@@ -20,10 +20,25 @@ from dv import cextract
 SERVES = ("C15", "C36")
 
 PYX = """# cython: language_level=3
+cimport cython
 def li(list l, Py_ssize_t i):
     return l[i]
 def tu(tuple t, Py_ssize_t i):
     return t[i]
+def seti(list l, Py_ssize_t i, v):
+    l[i] = v
+def ba(bytearray b, Py_ssize_t i):
+    return b[i]
+def bas(bytearray b, Py_ssize_t i, unsigned char v):
+    b[i] = v
+def by(bytes b, Py_ssize_t i):
+    return b[i]
+@cython.boundscheck(False)
+def by_nb(bytes b, Py_ssize_t i):
+    return b[i]
+@cython.wraparound(False)
+def by_nw(bytes b, Py_ssize_t i):
+    return b[i]
 """
 
 
@@ -75,8 +90,230 @@ print(bad[:5])
             "how": "catalogue module built from the working tree; results compared with CPython indexing", "obligation": getattr(ob, "name", None)}
 
 
-def units(tier):
+def _bytes_post(e):
+    """b[i] for a bytes object: the byte as an int 0..255, or IndexError (-1 with the error set)"""
+    from dv.l3 import ERRS
+    n = O.blen(e.bytes)
+    wrapped = If(And(e.wraparound != 0, e.index < 0), e.index + n, e.index)
+    in_range = And(wrapped >= 0, wrapped < n)
+    val = z3.Select(O.bytes_of(e.bytes), wrapped) % 256
+    return And(Implies(in_range, And(e.err == 0, e.result == val)),
+               Implies(And(e.boundscheck != 0, Not(in_range)), And(e.result == -1, e.err == ERRS["IndexError"])))
+
+
+def _native_bytes(model, ob=None):
+    import os
+    import subprocess
+    ctext, cfile = cextract.compile_pyx(PYX, name="dvgetitemrep")
+    d = os.path.dirname(cfile)
+    so = os.path.join(d, "dvgetitemrep.so")
+    p = subprocess.run(["clang", "-shared", "-fPIC", "-O0", "-w", "-DNDEBUG", "-I" + cextract.PY_INCLUDE, cfile, "-o", so], capture_output=True, text=True)
+    if p.returncode != 0:
+        return {"confirmed": False, "note": "build failed " + p.stderr[-300:]}
+    code = r"""
+import sys; sys.path.insert(0, %r); import dvgetitemrep as m
+bad = []
+for s in (b"", b"a", b"\x80\xff\x00", b"abcde"):
+    n = len(s)
+    for i in range(-3 * n - 2, 3 * n + 3):
+        def run(f):
+            try: return f(s, i)
+            except IndexError: return "IndexError"
+        want = run(lambda s, i: s[i])
+        if run(m.by) != want: bad.append(("by", s, i, run(m.by), want))
+        if want != "IndexError" and run(m.by_nb) != want: bad.append(("by_nb", s, i))
+        if 0 <= i < n and run(m.by_nw) != want: bad.append(("by_nw", s, i))
+        if i < 0 and run(m.by_nw) != "IndexError": bad.append(("by_nw", s, i, run(m.by_nw)))
+print(bad[:5])
+""" % d
+    r = subprocess.run(["/venv/bin/python", "-c", code], capture_output=True, text=True, timeout=120)
+    out = r.stdout.strip()
+    return {"inputs": "bytes of length 0..5 (incl. high bytes), indices in [-3n-2, 3n+2], default / boundscheck(False) / wraparound(False)",
+            "actual": out or r.stderr[-300:], "confirmed": out != "[]",
+            "how": "catalogue module built from the working tree; results compared with CPython indexing", "obligation": getattr(ob, "name", None)}
+
+
+def _bytes_unit():
+    fname = "__Pyx_GetItemInt_Bytes_Fast"
+    u = CUnit("StringTools.GetItemInt_Bytes_Fast", {"C15": ["post", "pre", "subset"], "C36": ["ub", "subset"]}, fname, _tu,
+              filt=[fname, "__Pyx_is_valid_index", "__Pyx_SetStringIndexingError"], defines=("NDEBUG",), pyobjs=("bytes",),
+              requires=[("the operand is a bytes object (typed operand, None excluded by the caller)", lambda e: O.is_bytes_sub(e.bytes)),
+                        ("flags are 0/1", lambda e: And(*[Or(x == 0, x == 1) for x in (e.wraparound, e.boundscheck, e.has_gil)])),
+                        ("with boundscheck off the caller guarantees a valid index (documented semantics of the directive)",
+                         lambda e: Implies(e.boundscheck == 0,
+                                           And(If(And(e.wraparound == 1, e.index < 0), e.index + O.blen(e.bytes), e.index) >= 0,
+                                               If(And(e.wraparound == 1, e.index < 0), e.index + O.blen(e.bytes), e.index) < O.blen(e.bytes)))),
+                        ("model: the contents are chars (-128..127)",
+                         lambda e: z3.ForAll([z3.Int("k!ch")], And(z3.Select(O.bytes_of(e.bytes), z3.Int("k!ch")) >= -128,
+                                                                   z3.Select(O.bytes_of(e.bytes), z3.Int("k!ch")) <= 127)))],
+              ensures=[("in range (after one wrap) => the byte as an int 0..255; out of range (checked) => -1 with IndexError", _bytes_post)],
+              options={"inline": ("*",), "merge": False},
+              subject={"file": "Cython/Utility/StringTools.c", "template": "GetItemIntBytes"})
+    u.exec_cls = O.CExecPyObj
+    u.err_ghost = True
+    u.replay = _native_bytes
+    u.concrete_search = lambda ob, regions=(): _native_bytes({}, ob)
+    return u
+
+
+def _set_post(e):
+    """l[i] = v on an exact list"""
+    n = O.seq_len(e.o)
+    wrapped = If(And(e.wraparound != 0, e.i < 0), e.i + n, e.i)
+    in_range = And(wrapped >= 0, wrapped < n)
+    key = [k for k in e.mem if k.startswith("liststore[")]
+    cnt = [k for k in e.mem if k.startswith("liststores[")]
+    stored = e.mem[key[0]] if key else z3.K(z3.IntSort(), z3.IntVal(0))
+    nstores = e.mem[cnt[0]] if cnt else z3.IntVal(0)
+    j = z3.Int("j!set")
+    only_w = z3.ForAll([j], Implies(j != wrapped, z3.Select(stored, j) == 0))
+    from dv.cfe import CV
+    idx_obj = z3.Int("new_int_index")
+    return And(Implies(in_range, And(e.err == 0, e.result == 0, nstores == 1, z3.Select(stored, wrapped) == e.v, only_w)),
+               # out of range (checked): CPython's generic item assignment decides (IndexError) - asked with an int object
+               # holding the index the program wrote, and nothing is stored
+               Implies(And(e.boundscheck != 0, Not(in_range)),
+                       And(nstores == 0, z3.Exists([idx_obj], And(O.is_long(idx_obj), O.intval(idx_obj) == e.i,
+                                                                  O.generic(z3.IntVal(O.OPCODES["setitem"]), e.o, idx_obj, e.v, e.result))))))
+
+
+def _native_set(model, ob=None):
+    import os
+    import subprocess
+    ctext, cfile = cextract.compile_pyx(PYX, name="dvgetitemrep")
+    d = os.path.dirname(cfile)
+    so = os.path.join(d, "dvgetitemrep.so")
+    p = subprocess.run(["clang", "-shared", "-fPIC", "-O0", "-w", "-DNDEBUG", "-I" + cextract.PY_INCLUDE, cfile, "-o", so], capture_output=True, text=True)
+    if p.returncode != 0:
+        return {"confirmed": False, "note": "build failed " + p.stderr[-300:]}
+    code = r"""
+import sys; sys.path.insert(0, %r); import dvgetitemrep as m
+bad = []
+for n in range(0, 6):
+    for i in range(-3 * n - 2, 3 * n + 3):
+        a, b = list(range(100, 100 + n)), list(range(100, 100 + n))
+        try: m.seti(a, i, "X"); ra = "ok"
+        except IndexError: ra = "IndexError"
+        try: b[i] = "X"; rb = "ok"
+        except IndexError: rb = "IndexError"
+        if (ra, a) != (rb, b): bad.append((n, i, ra, a, rb, b))
+print(bad[:4])
+""" % d
+    r = subprocess.run(["/venv/bin/python", "-c", code], capture_output=True, text=True, timeout=120)
+    out = r.stdout.strip()
+    return {"inputs": "lists of length 0..5, l[i] = 'X' for i in [-3n-2, 3n+2]", "actual": out or r.stderr[-300:], "confirmed": out != "[]",
+            "how": "catalogue module built from the working tree; outcome and mutated list compared with CPython", "obligation": getattr(ob, "name", None)}
+
+
+def _set_unit():
+    fname = "__Pyx_SetItemInt_Fast"
+    u = CUnit("ObjectHandling.SetItemInt_Fast[list]", {"C15": ["post", "pre", "subset"], "C36": ["ub", "subset"]}, fname, _tu,
+              filt=[fname, "__Pyx_is_valid_index"], defines=("NDEBUG",), pyobjs=("o", "v"),
+              requires=[("kernel: the container is an exact list", lambda e: And(O.is_list(e.o), O.exact_type(e.o) == O.TYPE_IDS["PyList_Type"])),
+                        ("flags are 0/1", lambda e: And(*[Or(x == 0, x == 1) for x in (e.wraparound, e.boundscheck, e.unsafe_shared)])),
+                        ("with boundscheck off the caller guarantees a valid index (documented semantics of the directive)",
+                         lambda e: Implies(e.boundscheck == 0,
+                                           And(If(And(e.wraparound == 1, e.i < 0), e.i + O.seq_len(e.o), e.i) >= 0,
+                                               If(And(e.wraparound == 1, e.i < 0), e.i + O.seq_len(e.o), e.i) < O.seq_len(e.o)))),
+                        ("0 <= len(o) (far below PY_SSIZE_T_MAX)", lambda e: And(O.seq_len(e.o) >= 0, O.seq_len(e.o) < 2 ** 62))],
+              ensures=[("in range (after one wrap) => exactly that slot is overwritten with v; out of range (checked) => nothing stored, "
+                        "generic assignment with the original index", _set_post)],
+              options={"inline": ("*",), "merge": False},
+              subject={"file": "Cython/Utility/ObjectHandling.c", "template": "SetItemInt", "instantiation": "exact list"})
+    u.exec_cls = O.CExecPyObj
+    u.err_ghost = True
+    u.replay = _native_set
+    u.concrete_search = lambda ob, regions=(): _native_set({}, ob)
+    return u
+
+
+def _ba_requires():
+    return [("the operand is an exact bytearray (typed operand, None excluded by the caller)", lambda e: O.exact_type(e.string) == O.TYPE_IDS["PyByteArray_Type"]),
+            ("flags are 0/1", lambda e: And(*[Or(x == 0, x == 1) for x in (e.wraparound, e.boundscheck, e.has_gil)])),
+            ("with boundscheck off the caller guarantees a valid index (documented semantics of the directive)",
+             lambda e: Implies(e.boundscheck == 0,
+                               And(If(And(e.wraparound == 1, e.i < 0), e.i + O.blen(e.string), e.i) >= 0,
+                                   If(And(e.wraparound == 1, e.i < 0), e.i + O.blen(e.string), e.i) < O.blen(e.string)))),
+            ("model: the contents are chars (-128..127)",
+             lambda e: z3.ForAll([z3.Int("k!ch")], And(z3.Select(O.bytes_of(e.string), z3.Int("k!ch")) >= -128,
+                                                       z3.Select(O.bytes_of(e.string), z3.Int("k!ch")) <= 127)))]
+
+
+def _ba_get_post(e):
+    from dv.l3 import ERRS
+    n = O.blen(e.string)
+    wrapped = If(And(e.wraparound != 0, e.i < 0), e.i + n, e.i)
+    in_range = And(wrapped >= 0, wrapped < n)
+    return And(Implies(in_range, And(e.err == 0, e.result == z3.Select(O.bytes_of(e.string), wrapped) % 256)),
+               Implies(And(e.boundscheck != 0, Not(in_range)), And(e.result == -1, e.err == ERRS["IndexError"])))
+
+
+def _ba_set_post(e):
+    from dv.l3 import ERRS
+    n = O.blen(e.string)
+    wrapped = If(And(e.wraparound != 0, e.i < 0), e.i + n, e.i)
+    in_range = And(wrapped >= 0, wrapped < n)
+    key = [k for k in e.mem if k.startswith("pybytes[")]
+    now = e.mem[key[0]] if key else O.bytes_of(e.string)
+    before = O.bytes_of(e.string)
+    j = z3.Int("j!bas")
+    return And(Implies(in_range, And(e.err == 0, e.result == 0, z3.Select(now, wrapped) % 256 == e.v,
+                                     z3.ForAll([j], Implies(j != wrapped, z3.Select(now, j) == z3.Select(before, j))))),
+               Implies(And(e.boundscheck != 0, Not(in_range)), And(e.result == -1, e.err == ERRS["IndexError"], now == before)))
+
+
+def _native_ba(model, ob=None):
+    import os
+    import subprocess
+    ctext, cfile = cextract.compile_pyx(PYX, name="dvgetitemrep")
+    d = os.path.dirname(cfile)
+    so = os.path.join(d, "dvgetitemrep.so")
+    p = subprocess.run(["clang", "-shared", "-fPIC", "-O0", "-w", "-DNDEBUG", "-I" + cextract.PY_INCLUDE, cfile, "-o", so], capture_output=True, text=True)
+    if p.returncode != 0:
+        return {"confirmed": False, "note": "build failed " + p.stderr[-300:]}
+    code = r"""
+import sys; sys.path.insert(0, %r); import dvgetitemrep as m
+bad = []
+for raw in (b"", b"a", b"\x80\xff\x00", b"abcde"):
+    n = len(raw)
+    for i in range(-3 * n - 2, 3 * n + 3):
+        a, b = bytearray(raw), bytearray(raw)
+        def run(f):
+            try: return f()
+            except IndexError: return "IndexError"
+        if run(lambda: m.ba(a, i)) != run(lambda: b[i]): bad.append(("get", raw, i))
+        ra = run(lambda: m.bas(a, i, 200)); 
+        def setb(): b[i] = 200
+        rb = run(setb)
+        if (ra, a) != (rb, b): bad.append(("set", raw, i, ra, bytes(a), rb, bytes(b)))
+print(bad[:4])
+""" % d
+    r = subprocess.run(["/venv/bin/python", "-c", code], capture_output=True, text=True, timeout=120)
+    out = r.stdout.strip()
+    return {"inputs": "bytearrays of length 0..5 (incl. high bytes), b[i] and b[i] = 200 for i in [-3n-2, 3n+2]", "actual": out or r.stderr[-300:],
+            "confirmed": out != "[]", "how": "catalogue module built from the working tree; outcome and mutated bytearray compared with CPython",
+            "obligation": getattr(ob, "name", None)}
+
+
+def _ba_units():
     us = []
+    for what, post, label in (("Get", _ba_get_post, "in range (after one wrap) => the byte as an int 0..255; out of range (checked) => -1 with IndexError"),
+                              ("Set", _ba_set_post, "in range (after one wrap) => exactly that byte becomes v; out of range (checked) => -1 with IndexError, nothing written")):
+        fname = "__Pyx_%sItemInt_ByteArray_Fast_Locked" % what
+        u = CUnit("StringTools.%sItemInt_ByteArray_Fast_Locked" % what, {"C15": ["post", "pre", "subset"], "C36": ["ub", "subset"]}, fname, _tu,
+                  filt=[fname, "__Pyx_is_valid_index", "__Pyx_SetStringIndexingError"], defines=("NDEBUG",), pyobjs=("string",),
+                  requires=_ba_requires(), ensures=[(label, post)], options={"inline": ("*",), "merge": False},
+                  subject={"file": "Cython/Utility/StringTools.c", "template": "%sItemIntByteArray" % what})
+        u.exec_cls = O.CExecPyObj
+        u.err_ghost = True
+        u.replay = _native_ba
+        u.concrete_search = lambda ob, regions=(): _native_ba({}, ob)
+        us.append(u)
+    return us
+
+
+def units(tier):
+    us = [_bytes_unit(), _set_unit()] + _ba_units()
     for kind in ("List", "Tuple"):
         fname = "__Pyx_GetItemInt_%s_Fast" % kind
         u = CUnit("ObjectHandling.GetItemInt_%s_Fast" % kind, {"C15": ["post", "pre", "subset"], "C36": ["ub", "subset"]}, fname, _tu, filt=[fname, "__Pyx_is_valid_index"],
